@@ -86,6 +86,10 @@ struct Net {
     c2s_cap: usize,
     fired: BTreeMap<&'static str, u64>,
     accepted: u64,
+    /// accept attempts that found a connection waiting (1-based ordinal over all listeners) which fail once with
+    /// ECONNABORTED / EMFILE instead; the waiting connection stays in the backlog
+    accept_faults: std::collections::BTreeSet<u64>,
+    accept_attempts: u64,
 }
 
 static NET: Mutex<Option<Net>> = Mutex::new(None);
@@ -115,6 +119,9 @@ pub fn set_write_caps(conn: usize, caps: Vec<usize>) {
     with(|n| {
         n.write_caps.insert(conn, caps.into_iter().collect());
     });
+}
+pub fn set_accept_faults(f: std::collections::BTreeSet<u64>) {
+    with(|n| n.accept_faults = f);
 }
 pub fn num_listeners() -> usize {
     with(|n| n.listeners.len())
@@ -154,7 +161,7 @@ pub fn bind(addr: SocketAddr, only_v6: bool) -> io::Result<Arc<Mutex<ListenerSta
 }
 
 /// Poll for the next accepted connection. `Ready(None)` = listener closed (injected).
-pub fn poll_accept(l: &Arc<Mutex<ListenerState>>, cx: &mut Context<'_>) -> Poll<Option<Conn>> {
+pub fn poll_accept(l: &Arc<Mutex<ListenerState>>, cx: &mut Context<'_>) -> Poll<Option<io::Result<Conn>>> {
     crate::fault::seam_point("accept");
     if crate::fault::end_loop_now() {
         l.lock().unwrap().closed = true;
@@ -163,12 +170,27 @@ pub fn poll_accept(l: &Arc<Mutex<ListenerState>>, cx: &mut Context<'_>) -> Poll<
     if g.closed {
         return Poll::Ready(None);
     }
+    if !g.pending.is_empty() {
+        let fail = with(|n| {
+            n.accept_attempts += 1;
+            let k = n.accept_attempts;
+            let f = n.accept_faults.remove(&k);
+            if f {
+                *n.fired.entry("accept-transient-error").or_insert(0) += 1;
+            }
+            f
+        });
+        if fail {
+            engine::log("tcp-accept-error", 0, 0);
+            return Poll::Ready(Some(Err(io::Error::from_raw_os_error(libc::ECONNABORTED))));
+        }
+    }
     match g.pending.pop_front() {
         Some(c) => {
             drop(g);
             with(|n| n.accepted += 1);
             engine::log("tcp-accept", c.id as u64, 0);
-            Poll::Ready(Some(c))
+            Poll::Ready(Some(Ok(c)))
         }
         None => {
             g.waker = Some(cx.waker().clone());
